@@ -608,7 +608,7 @@ open Glom in
 theorem c06_arith_checker (sp : Sp) (tgt : Val) (h : Heap) (hp : sp.pureCalls = true) :
     checkArith h sp (observe6 h.length (evalAuto sp tgt h)) = true := by
   unfold checkArith observe6
-  simp only [Bool.and_eq_true, decide_eq_true_eq, Bool.or_eq_true, Bool.not_eq_true']
+  simp only [Bool.and_eq_true, decide_eq_true_eq, Bool.or_eq_true, Bool.not_eq_true', Bool.not_false, and_true]
   refine ⟨(evalAuto_ext sp hp tgt h).take, ?_⟩
   cases hn : sp.mustBeNew with
   | false => exact Or.inl rfl
